@@ -692,7 +692,9 @@ impl IndexManager {
     /// Format: {bucket:02x}{version:08x}.idx (e.g., "000000000a.idx")
     fn parse_index_filename(filename: &str) -> Option<(u8, u32)> {
         // Expected format: 10 hex digits + ".idx" = 14 characters
+        // (ASCII only: the two fields are cut out by byte offset)
         if filename.len() != 14
+            || !filename.is_ascii()
             || !std::path::Path::new(filename)
                 .extension()
                 .is_some_and(|ext| ext.eq_ignore_ascii_case("idx"))
